@@ -149,6 +149,10 @@ def generate(rng, tier):
             c = {"kind": rng.choice(["part_only", "mesh_off", "groups", "full"])}
             if c["kind"] == "groups":
                 c["groups"] = rng.choice([["part"], ["sink"], ["part", "sink"], ["mesh"]])
+        # a load of some ranks only is often followed directly by a wider one (what was learnt from a subset of the files
+        # must not be taken for the whole output)
+        if calls and calls[-1]["kind"] == "cpu_list" and rng.random() < 0.5:
+            c = {"kind": "full"} if rng.random() < 0.6 else {"kind": "cpu_list", "cpu_list": rng.sample(range(1, p["ncpu"] + 1), rng.randrange(1, p["ncpu"] + 1))}
         # the same position box as an earlier call, now together with another level cap (or without the one it had)
         prev = [q for q in calls if q.get("intervals")]
         if prev and rng.random() < 0.35:
@@ -157,6 +161,11 @@ def generate(rng, tier):
             if "level" not in q or rng.random() < 0.6:
                 c["level"] = gen_level_pred(rng, p["levelmin"], p["levelmax"])
         calls.append(c)
+    if not deep and rng.random() < 0.12:
+        # the history starts with one rank alone
+        calls = [{"kind": "cpu_list", "cpu_list": [rng.randrange(1, p["ncpu"] + 1)]}, {"kind": "full"}] + calls[: max(0, len(calls) - 2)]
+        if rng.random() < 0.6:
+            p["ghost_p"] = 0.0  # no ghost copies: a file then holds only the levels its own rank has
     faulty = rng.random() < 0.4
     if faulty:
         for c in calls[:-1]:
